@@ -154,10 +154,12 @@ def axis_oracle(e, n, ls, ind0, outchunks, out_pos_of_block, block_index, p, tag
     return g
 
 
-def mk_1d_slice(nb, step, none_start, none_stop, maxc, pad):
+def mk_1d_slice(nb, step, none_start, none_stop, maxc, pad, minc=1):
     def setup(e):
-        ls = tuple(e.int(f"l{i}", 1, maxc) for i in range(nb))
+        ls = tuple(e.int(f"l{i}", minc, maxc) for i in range(nb))
         dim = sum(ls[1:], ls[0])
+        if minc == 0:
+            e.assume(lambda: dim >= 1)      # zero-size chunks anywhere, but a non-empty axis (the probe position p needs one)
         start = None if none_start else e.int("start")
         stop = None if none_stop else e.int("stop")
         for v in (start, stop):
@@ -205,7 +207,7 @@ def mk_1d_slice(nb, step, none_start, none_stop, maxc, pad):
         if tuple(py_indices(ind0, n)) != ind0.indices(n):
             raise HarnessError("py_indices transcription disagrees with CPython")
 
-    name = f"slice1d[nb={nb},step={step},start={'None' if none_start else 'sym'},stop={'None' if none_stop else 'sym'}]"
+    name = f"slice1d[nb={nb},step={step},start={'None' if none_start else 'sym'},stop={'None' if none_stop else 'sym'}{',zero-size chunks' if minc == 0 else ''}]"
     return Obligation(name, setup, run, patches=_patches, e2e=e2e, e2e_every=7)
 
 
@@ -809,6 +811,9 @@ def obligations(tier):
                         continue
                     obs.append(mk_1d_slice(nb, step, ns, nst, maxc, pad))
         obs.append(mk_1d_int(nb, maxc))
+    for step in steps:
+        for ns, nst in ((False, False), (True, True)):
+            obs.append(mk_1d_slice(3, step, ns, nst, 2 if tier == "quick" else 3, pad, minc=0))
     if tier == "quick":
         obs.append(mk_2d(("a", "b"), (2, 2), (2, -1), 3, 0))
         obs.append(mk_2d(("b", "a"), (2, 1), (-2, 3), 3, 3))
